@@ -94,8 +94,12 @@ func findSelectorExprViolation(
 	ctx *packageOnlyContext,
 	expr *ast.SelectorExpr,
 ) *PackageOnlyViolation {
-	// Get the type information
-	obj := ctx.pass.TypesInfo.ObjectOf(expr.Sel)
+	// Get the type information. For an embedded field (struct{ pkg.T }) the identifier both
+	// defines the field and uses the type: the reference is to the type.
+	obj := ctx.pass.TypesInfo.Uses[expr.Sel]
+	if obj == nil {
+		obj = ctx.pass.TypesInfo.ObjectOf(expr.Sel)
+	}
 	if obj == nil {
 		return nil
 	}
@@ -136,7 +140,11 @@ func findIdentViolation(
 	ctx *packageOnlyContext,
 	ident *ast.Ident,
 ) *PackageOnlyViolation {
-	obj := ctx.pass.TypesInfo.ObjectOf(ident)
+	// For an embedded field (struct{ T }) the identifier both defines the field and uses the type
+	obj := ctx.pass.TypesInfo.Uses[ident]
+	if obj == nil {
+		obj = ctx.pass.TypesInfo.ObjectOf(ident)
+	}
 	if obj == nil {
 		return nil
 	}
